@@ -17,11 +17,26 @@ CHECKS = {
         note="Trusted: TLC, the driver's quantisation (round to 2^-17..2^-20; Lagrange order 5-6 at 2^-14..2^-15), IEEE evaluation of the element code. "
              "3-d Lagrange orders 5-6 are covered by node/permutation records only; completeness of high-order Lagrange partly via the documented tensor-space clause.",
         ref="5/C04"),
+    "C05": dict(
+        engine="Quadrature",
+        technique="TLA+ law module Quadrature.tla: TLC recomputes all monomial moments of every scheme in 2^28 fixed point from the logged "
+                  "points/weights and compares with exact rational integrals; structural clauses (tensorisation, boundary variant, permutation, inverse); "
+                  "reference/negative model QuadratureMC",
+        text="For every scheme x order x dim x permute TLC evaluates the moment law for all monomials up to the documented degree (complete by "
+             "linearity), containment in the closed reference domain, weight sum, tensor-product structure with n points per axis, boundary "
+             "variants, permutation-only-reorders and the inverse scheme on the points/weights the real classes return; QuadratureMC shows "
+             "that rational textbook rules satisfy the laws and that one mutation per clause is rejected.",
+        note="Exactness is decided to (256+4n)*2^-28 absolute on normalised moments, not symbolically (Gauss points are irrational); for the 8- and "
+             "9-point tensor rules the point-count/tensor-structure clauses carry the decision. Sphere rule: antipodally symmetrised as documented (2x21). "
+             "Quick tier restricts the largest 3-d tensor rules to axis/diagonal/extreme exponent tuples; thorough uses complete sets.",
+        ref="5/C05"),
 }
 
 NOT_YET = {}
 
 ENGINES = [
+    {"name": "Quadrature", "path": "spec/Quadrature.tla", "serves_properties": ["C05"],
+     "kind_free_text": "TLA+ law module (fixed-point moments) + TLC trace validation + reference model QuadratureMC.tla"},
     {"name": "Element", "path": "spec/Element.tla", "serves_properties": ["C04"],
      "kind_free_text": "TLA+ law module + TLC trace validation of lattice samples + reference model ElementMC.tla"},
 ]
